@@ -49,6 +49,7 @@ def parse_csv(path: Union[str, Path], **kwargs) -> List[DataSet]:
         DataFrame,
         read_csv,
     )
+    from pandas.errors import ParserError
 
     _validate_path(path)
 
@@ -58,6 +59,12 @@ def parse_csv(path: Union[str, Path], **kwargs) -> List[DataSet]:
     except UnicodeDecodeError:
         kwargs["encoding"] = "latin-1"
         df = read_csv(path, engine="python", **kwargs)
+    except ParserError:
+        # E.g., decimal commas in some but not all of the values in a row
+        # when the columns are not separated by commas.
+        if "sep" in kwargs:
+            raise
+        df = DataFrame({"": []})
 
     if len(df.columns) == 1:
         separators: List[str] = [
